@@ -239,6 +239,8 @@ func gen(t *rapid.T) Case {
 		h.RefPage = rapid.SampledFrom([]int{0, 0, 1}).Draw(t, fmt.Sprintf("reg%d.refpage", i))
 		h.LocStyle = between(t, fmt.Sprintf("reg%d.locstyle", i), 0, 3)
 		h.LocScheme = pick(t, fmt.Sprintf("reg%d.locscheme", i), "", 10, "http", 1, "https", 1)
+		h.NoMountGrant = chance(t, fmt.Sprintf("reg%d.nomountgrant", i), 35)
+		h.AnonMount = rapid.SampledFrom([]int{0, 0, 0, 201, 405}).Draw(t, fmt.Sprintf("reg%d.anonmount", i))
 		c.Hosts = append(c.Hosts, h)
 		g.clientCfg(i, fmt.Sprintf("reg%d", i), i < 2)
 	}
@@ -398,7 +400,7 @@ func gen(t *rapid.T) Case {
 	nOps := between(t, "nops", 1, 6)
 	for k := 0; k < nOps; k++ {
 		l := fmt.Sprintf("op%d", k)
-		o := Op{Kind: pick(t, l+".kind", "bget", 4, "mget", 2, "copy", 4, "bput", 3, "tags", 3, "referrers", 2, "ping", 1, "mhead", 1, "mput", 1, "mdel", 1, "bhead", 1, "bmount", 1, "bdel", 1, "catalog", 1)}
+		o := Op{Kind: pick(t, l+".kind", "bget", 4, "mget", 2, "copy", 4, "bput", 3, "tags", 3, "referrers", 2, "ping", 1, "mhead", 1, "mput", 1, "mdel", 1, "bhead", 1, "bmount", 2, "bdel", 1, "catalog", 1)}
 		o.Reg = rapid.SampledFrom(append([]int{0}, regs...)).Draw(t, l+".reg")
 		o.Repo = between(t, l+".repo", 0, 1)
 		o.Tag = pick(t, l+".tag", "v1", 2, "ext", 1)
@@ -431,6 +433,18 @@ func gen(t *rapid.T) Case {
 		if (len(h.Mirrors) > 0 || h.MirrorOf >= 0) && chance(t, l+".mirror", 60) {
 			c.Ops = append(c.Ops, Op{Kind: pick(t, l+".mirror.kind", "tags", 3, "referrers", 2, "mget", 1, "bget", 1), Reg: i, Repo: between(t, l+".mirror.repo", 0, 1), Tag: "v1", Blob: 1})
 		}
+	}
+	// a mount between two different registries (handled as anonymous mount on the target)
+	if len(regs) > 1 && chance(t, "aim.xmount", 25) {
+		src := rapid.SampledFrom(regs).Draw(t, "aim.xmount.src")
+		var others []int
+		for _, r := range regs {
+			if r != src {
+				others = append(others, r)
+			}
+		}
+		c.Ops = append(c.Ops, Op{Kind: "bmount", Reg: src, Repo: between(t, "aim.xmount.repo", 0, 1), Tag: "v1", Blob: between(t, "aim.xmount.blob", 0, 2),
+			Tgt: rapid.SampledFrom(others).Draw(t, "aim.xmount.tgt"), TgtRepo: between(t, "aim.xmount.tgtrepo", 0, 1)})
 	}
 	if c.extHost() >= 0 && chance(t, "aim.external", 60) {
 		r := rapid.SampledFrom(regs).Draw(t, "aim.external.reg")
